@@ -85,9 +85,20 @@ def _data_col_with_formula_skip(t, col):
 
 
 def _col_rec_lookup(fn, var, table_expr, col_expr):
-  """var = <docmodel>.columns.lookupOne(tableId=<table_expr>, colId=<col_expr>)"""
-  for v in E.local_defs(fn.node, var):
-    if isinstance(v, ast.Call) and endswith(dotted(v.func), "columns.lookupOne"):
+  """`var` -- a local name, or the text of an expression -- is
+  <docmodel>.columns.lookupOne(tableId=<table_expr>, colId=<col_expr>)"""
+  if var is None:
+    return False
+  if var.isidentifier():
+    vals = E.local_defs(fn.node, var)
+  else:
+    try:
+      vals = [ast.parse(var, mode="eval").body]
+    except SyntaxError:
+      return False
+  for v in vals:
+    if isinstance(v, ast.Call) and endswith(fn.name(v.func) or dotted(v.func),
+                                            "columns.lookupOne") and not v.args:
       kw = {k.arg: text(k.value) for k in v.keywords}
       if kw == {"tableId": table_expr, "colId": col_expr}:
         return True
@@ -303,13 +314,16 @@ def r2_new_records(run, w):
          "set the caller computed", ok, fi=ir.fi)
   ic2 = w.fn("engine.Engine.invalidate_column")
   cps = ic2.fi.params()
-  incl = E.local_defs(ic2.node, "include_self")
   dep = [c for (n, c, nm) in ic2.calls() if nm == "self.dep_graph.invalidate_deps"]
-  ok = len(incl) == 1 and len(dep) == 1 and \
-      text(incl[0]).replace("(", "").replace(")", "") == \
-      "%s.is_formula or %s.has_formula and %s" % (cps[1], cps[1], cps[3]) and \
-      any(k.arg == "include_self" and text(k.value) == "include_self" for k in dep[0].keywords) \
-      and text(dep[0].args[1]) == cps[2]
+  ok = len(dep) == 1
+  if ok:
+    b = H.bind_args(dep[0], w.fn("depend.Graph.invalidate_deps").fi)
+    dps = w.fn("depend.Graph.invalidate_deps").fi.params()
+    flow2 = H.Flow(ic2)
+    inc = b.get("include_self")
+    ok = inc is not None and len(dps) >= 3 and dps[2] in b and text(b[dps[2]]) == cps[2] and \
+        text(flow2.du.inline(inc)).replace("(", "").replace(")", "") == \
+        "%s.is_formula or %s.has_formula and %s" % (cps[1], cps[1], cps[3])
   run.ob(R2, ic2.qualname, "include_self = is_formula() or (has_formula() and recompute_data_col)",
          "a data column is itself recomputed only when it has a formula and the caller asked "
          "for it", ok, fi=ic2.fi)
@@ -680,12 +694,21 @@ def r5_rebuild_trigger(run, w):
   mu = w.fn("engine.Engine._maybe_update_trigger_dependencies")
   ok = len(flag) == 1
   if ok:
+    from ..guards import guarded_by, text_atom
     F = flag[0].targets[0].attr
-    first = mu.node.body[0]
-    ok = isinstance(first, ast.If) and text(first.test) == "not self." + F and \
-        isinstance(first.body[-1], ast.Return) and \
-        any(isinstance(s, ast.Assign) and H.is_self_attr(s.targets[0], F) and
-            isinstance(s.value, ast.Constant) and s.value.value is False for s in mu.node.body)
+    cfg = mu.cfg
+    def sets_flag(n, val):
+      return n.kind == "stmt" and isinstance(n.stmt, ast.Assign) and \
+          any(H.is_self_attr(t, F) for t in n.stmt.targets) and \
+          isinstance(n.stmt.value, ast.Constant) and n.stmt.value.value is val
+    resets = {n.id for n in cfg.nodes if sets_flag(n, False)}
+    raises = {n.id for n in cfg.nodes if sets_flag(n, True)}
+    work = {n.id for (n, c, nm) in mu.calls() if nm in ("self.dep_graph.add_edge",
+                                                        "self.dep_graph.clear_dependencies")}
+    # the rebuild happens only while the flag is set, and consumes it before doing the work
+    ok = bool(resets) and bool(work) and not raises and \
+        all(guarded_by(cfg, x, text_atom("self." + F), True, kills=()) for x in work | resets) and \
+        all(cfg.dominated_by(x, resets) for x in work)
     init = w.fn("engine.Engine.__init__")
     ok = ok and any(isinstance(s, ast.Assign) and H.is_self_attr(s.targets[0], F) and
                     isinstance(s.value, ast.Constant) and s.value.value is True
